@@ -476,8 +476,7 @@ func init() {
 					e.ExtraExtensions = append(e.ExtraExtensions, pkix.Extension{Id: asn1.ObjectIdentifier{2, 5, 29, 24}, Value: pick(rng, [][]byte{{0x18, 0x0f, '2', '0', '2', '3', '0', '1', '0', '1', '0', '0', '0', '0', '0', '0', 'Z'}, {0x18, 0x00}, {0x05, 0x00}})})
 				}
 				if rng.Intn(6) == 0 {
-					e.ExtraExtensions = append(e.ExtraExtensions, pkix.Extension{Id: asn1.ObjectIdentifier{2, 5, 29, 21}, Value: pick(rng, [][]byte{{0x0a, 0x01, 0xff}, {0x0a, 0x01, 0x80}, {0x0a, 0x02, 0xff, 0x7f}, {0x0a, 0x00}, {0x0a, 0x01, 0x07}, {0x02, 0x01, 0x01}})})
-					e.ReasonCode = 0
+					e.ReasonCode = pick(rng, []int{-1, -128, -129, 7, 1 << 16})
 				}
 				tmpl.RevokedCertificateEntries = append(tmpl.RevokedCertificateEntries, e)
 			}
